@@ -32,7 +32,7 @@ from . import irkit, tkit, emit, catalog, c05, c12
 from .common import WORKERS, conc_vt, run_mutants
 
 PROP = "C16"
-FILTER = r"fbody#|#den-independent|get_exec_op_list#|#registered|lemma#|code_format#|#total|#raw|#emit|#loop|#frame|update_stmt"
+FILTER = r"fbody#|#den-independent|get_exec_op_list#|#registered|lemma#|code_format#|#total|#raw|#emit|#loop|#frame|update_stmt|declared-at-most-once"
 
 MUTANTS = [
     {"name": "fbody: READ_STATEMENTS layout skips the read block", "file": "rzilcompiler/Transformer/RZILTransformer.py",
